@@ -1263,10 +1263,39 @@ def oracle_tables(over, writes, graphs):
     return fails
 
 
+def _oracle_job(job):
+    """one direct-oracle evaluation (run in a forked worker); job = (kind, case)"""
+    kind, case = job
+    try:
+        if kind == "transform":
+            why = check_transform_case(case)
+            if why:
+                return dict(shrink_transform_case(dict(case, why=why)))
+            return None
+        why = check_copy_case(case)
+        return dict(case, why=why) if why else None
+    except Exception as ex:  # pragma: no cover
+        return dict(case, why="harness-exception: %s: %s" % (type(ex).__name__, str(ex)[:200]))
+
+
+def run_oracle_jobs(jobs, workers=12):
+    """The oracle cases are independent: evaluate them in forked workers (falls back to the serial loop)."""
+    if len(jobs) < 8:
+        return [_oracle_job(j) for j in jobs]
+    try:
+        import multiprocessing as mp
+        from concurrent.futures import ProcessPoolExecutor
+        with ProcessPoolExecutor(max_workers=workers, mp_context=mp.get_context("fork")) as ex:
+            return list(ex.map(_oracle_job, jobs, chunksize=4))
+    except Exception:  # pragma: no cover
+        return [_oracle_job(j) for j in jobs]
+
+
 class C09(Prop):
     pid = "C09"
     title = "Transforming or copying an entity equals transforming its output geometry"
-    prebuilt = ["Base/Vec3.v", "Model/C09_Transform.v", "Proofs/C09_Leaves.v", "Proofs/C09_Commute.v", "Proofs/C09_Equivariance.v"]
+    prebuilt = ["Base/Vec3.v", "Model/C09_Transform.v", "Proofs/C09_Leaves.v", "Proofs/C09_Commute.v", "Proofs/C09_Equivariance.v",
+                "Proofs/C09_Traverse.v", "Proofs/C09_Main.v"]
     gen_dependent_files = ["Gen/C09/Tables.v"]
     property_files = ["Properties/C09.v"]
     trusted = [
@@ -1292,7 +1321,8 @@ class C09(Prop):
         graphs = tab_class_graphs(random.Random(12345))
         ctx.write_gen("Tables", emit_tables(over, writes, graphs))
         self._tables = (over, writes, graphs)
-        known = {"Point", "Array", "Angle", "Operation", "CircleCurve", "SplineRound", "QuarterSplineRing", "Face", "Sketch"}
+        known = {"Point", "Array", "Angle", "Operation", "CircleCurve", "SplineRound", "QuarterSplineRing", "Face", "Sketch",
+                 "EighthSphere", "Hemisphere"}
         self._unknown_overrides = [c for c, ms in over if ms and c not in known]
 
     # -- S3 ------------------------------------------------------------------------------------
@@ -1311,7 +1341,8 @@ class C09(Prop):
                              "(behaviour still compared through the call log): %s" % ", ".join(self._unknown_overrides))
         n_trav = ctx.n(260, 4000)
         n_oracle = ctx.n(240, 4000)
-        n_leaf = ctx.n(480, 6000)
+        n_leaf = ctx.n(160, 6000)
+        leaf_cap = ctx.n(12, 400)  # goals per (leaf class, method, origin handling)
         classes = list(ALL_CLASSES)
         # (U) traversal cases
         trav = []
@@ -1346,7 +1377,7 @@ class C09(Prop):
         res.traces = len(trav)
         ctx.log("S3: %d traversal cases run in %.1fs" % (len(trav), time.time() - T0))
         shards = []
-        per = 60
+        per = ctx.n(65, 250)
         for k in range(0, len(trav), per):
             chunk = trav[k:k + per]
             body = ["From Coq Require Import List Bool Arith.", "From CB Require Import Model.C09_Transform.", "Import ListNotations.",
@@ -1365,21 +1396,29 @@ class C09(Prop):
         chosen, seen = [], {}
         for ev in leaf_pool:
             key = (ev["is_array"], ev["m"], ev["code"])
-            if seen.get(key, 0) < max(8, n_leaf // 24):
+            if seen.get(key, 0) < leaf_cap:
                 seen[key] = seen.get(key, 0) + 1
                 chosen.append(ev)
             if len(chosen) >= n_leaf:
                 break
-        per = 40
-        for k in range(0, len(chosen), per):
-            chunk = chosen[k:k + per]
+        # spread the goals over the files by cost (a rotate goal costs about five times a translate goal)
+        n_files = max(1, min(ctx.n(12, 16), (len(chosen) + 7) // 8))
+        files = [[] for _ in range(n_files)]
+        load = [0.0] * n_files
+        order = sorted(range(len(chosen)), key=lambda i: -{"rotate": 5, "mirror": 2}.get(chosen[i]["m"], 1))
+        for i in order:
+            j = load.index(min(load))
+            files[j].append(i)
+            load[j] += {"rotate": 5, "mirror": 2}.get(chosen[i]["m"], 1)
+        for j, idxs in enumerate(files):
             body = ["From Coq Require Import Reals List.", "From Interval Require Import Tactic.",
                     "From CB Require Import Base.Vec3 Model.C09_Transform.", "Open Scope R_scope."]
-            for j, ev in enumerate(chunk):
+            for i in idxs:
+                ev = chosen[i]
                 row = 0 if not ev["is_array"] else rng.randrange(len(ev["before"]))
                 ev["row"] = row
-                body.append(leaf_goal(k + j, ev, row))
-            shards.append(("leaf_%d" % (k // per), "\n".join(body) + "\n"))
+                body.append(leaf_goal(i, ev, row))
+            shards.append(("leaf_%d" % j, "\n".join(body) + "\n"))
         for ev in chosen:
             res.evaluations += 1
             res.count("leaf:%s.%s" % ("Array" if ev["is_array"] else "Point", ev["m"]))
@@ -1415,26 +1454,25 @@ class C09(Prop):
                                        before=[float(x) for x in _np().ravel(ev["before"])],
                                        after=[float(x) for x in _np().ravel(ev["after"])], op=ev["code"]))
         # direct oracle: transformation cases with all kinds of origins, copy cases, tables
+        jobs = []
         for i in range(n_oracle):
             cl = classes[i % len(classes)] if i < 2 * len(classes) else rng.choice(classes)
             spec = gen_entity_spec(rng, cl)
             case = dict(kind="transform", klass=cl, spec=spec, tlist=gen_tlist(rng), mode=rng.choice(["method", "list"]))
             if i < len(classes):
                 case["tlist"] = [gen_tf(rng, "mirror")]
-            why = check_transform_case(case)
+            jobs.append(("transform", case))
             res.evaluations += 1
             res.count("oracle:" + cl.split(":")[0])
             if any(t[0] != "translate" and t[-1] is None for t in case["tlist"]):
                 res.boundary += 1
-            if why:
-                res.oracle_failures.append(dict(shrink_transform_case(dict(case, why=why))))
         for cl in classes:
-            spec = gen_entity_spec(rng, cl)
-            why = check_copy_case(dict(spec=spec))
+            jobs.append(("copy", dict(kind="copy", klass=cl, spec=gen_entity_spec(rng, cl))))
             res.evaluations += 1
             res.count("oracle:copy")
-            if why:
-                res.oracle_failures.append(dict(kind="copy", klass=cl, spec=spec, why=why))
+        for r in run_oracle_jobs(jobs):
+            if r:
+                res.oracle_failures.append(r)
         if getattr(self, "_tables", None):
             res.oracle_failures += oracle_tables(*self._tables)
         ctx.log("S3: oracle cases in %.1fs" % (time.time() - T1))
@@ -1498,19 +1536,29 @@ class C09(Prop):
 
     # -- S5 helpers ----------------------------------------------------------------------------
     def signature(self, rp):
+        """Root cause where the replay itself shows it, otherwise (kind, class, transformation kinds, symptom)."""
         if rp.get("sig"):
             return rp["sig"]
         kind = rp.get("kind", "?")
-        why = (rp.get("why") or "").split(":")[0]
+        full = rp.get("why") or ""
+        why = full.split(":")[0]
         klass = rp.get("klass", "")
+        kinds = [t[0] for t in rp.get("tlist", [])]
         if kind == "copy" and why == "geometry-undefined" and klass.split(":")[-1] in ("EighthSphere", "Hemisphere"):
+            # geometry_label is f"sphere_{id(self)}": the copy's faces keep the label of the original
             return "C09:copy:geometry-undefined:sphere"
-        if kind == "transform" and klass in ("curve:circle", "edgedata:curve:circle") and rp.get("mode") == "list" \
-                and any(t[0] == "mirror" for t in rp.get("tlist", [])) and why in ("position", "length"):
-            return "C09:transform-list:mirror:CircleCurve-toplevel"
+        if kind == "transform" and rp.get("mode") == "list":
+            # ElementBase.transform hands the calls to the parts: the entity's own overrides are bypassed
+            if klass == "edgedata:angle" and why == "direction":
+                return "C09:transform-list:own-override-bypassed:Angle"
+            if klass == "curve:circle" and "mirror" in kinds and why in ("position", "length"):
+                return "C09:transform-list:own-override-bypassed:CircleCurve"
+        if kind == "transform" and "mirror" in kinds and why == "edge-shape" and "direction reversed" in full:
+            # Operation.mirror swaps the faces (invert) but leaves the side edges running the old way
+            return "C09:mirror:operation-side-edge-not-reversed"
         if kind == "helper":
             return "C09:helper:%s:%s" % (rp.get("helper"), rp.get("argument"))
-        return "C09:%s:%s:%s:%s" % (kind, klass, "+".join(t[0] for t in rp.get("tlist", [])), why)
+        return "C09:%s:%s:%s:%s" % (kind, klass, "+".join(kinds), why)
 
     def replay(self, ctx, obj):
         kind = obj.get("kind")
